@@ -9,6 +9,8 @@ that encodes its (sample label tuple, variable, feature label tuple), so
 * the **round trip** `inverse_transform_data(fit_transform(X))` is compared with X label by label (container
   type, variable names, dimension sets, label sets, values) using an independent description of the input
   kept by the generator (xv/props/c02_layout.py) -- not xarray alignment, not xeofs;
+* `Preprocessor.transform(X)` -- a second execution on the same input -- must rebuild the very same matrix,
+  cell for cell, as `fit_transform(X)` (else projections of later data hang on other labels than the fit);
 * an EOF fit on the same layout must return components with the feature dims + 'mode', scores with the
   sample dims + 'mode', a reconstruction with the full input structure; with ids as data (all flags off)
   the label-wise product scores x components must reproduce X, which pins every component / score to its label.
@@ -36,6 +38,11 @@ ASSUMPTIONS = [
     "list items share their sample labels in the same order (a list is not re-aligned by the caller)",
     "flags on: data are random floats, round trip asserted to 1e-12 relative; non-float64 dtypes only with all flags off",
     "the EOF reconstruction is asserted only with n_modes = full rank and solver='full' (1e-9 relative)",
+    "namings that Stacker._validate_dimension_names itself declares unusable (sample_name = a user dim with several sample "
+    "dims; feature_name = a user dim of a Dataset / of a DataArray with several feature dims) may be refused: an exception "
+    "there is a refusal, a wrong value still a violation; they are generated only in a small dedicated family",
+    "not generated: 2-D non-index coordinates spanning a sample and a feature dim; variables lacking a sample dim; "
+    "list items whose sample labels differ; unseen data (C05); fully missing samples (C06)",
 ]
 EXHAUSTIVE = {"quick": False, "thorough": False}
 
@@ -79,7 +86,7 @@ def setup(tier):
         return post
 
     P.Preprocessor.fit_transform = icontract.ensure(fit_transform_post)(P.Preprocessor.fit_transform)
-    for nm in ("inverse_transform_data", "inverse_transform_components", "inverse_transform_scores"):
+    for nm in ("transform", "inverse_transform_data", "inverse_transform_components", "inverse_transform_scores"):
         setattr(P.Preprocessor, nm, icontract.ensure(make_counter(nm))(getattr(P.Preprocessor, nm)))
     P.Preprocessor._xv_c02 = True
 
@@ -93,6 +100,7 @@ def required(tier):
     return {
         "mon": [
             "post:Preprocessor.fit_transform",
+            "post:Preprocessor.transform",
             "post:Preprocessor.inverse_transform_data",
             "post:Preprocessor.inverse_transform_components",
             "post:Preprocessor.inverse_transform_scores",
@@ -100,6 +108,29 @@ def required(tier):
         ],
         "cover": cover,
     }
+
+
+def evidence_extra(results, extras):
+    """what the enumeration reached: verdicts per container kind, layout cells, and per operation how often it was
+    observed without a violation (an operation behind a failing earlier one is not observed at all)"""
+    per = {}
+    clean = {}
+    families = {}
+    for r in results:
+        c = r["case"]
+        per.setdefault(c["container"], {}).setdefault(r["status"], 0)
+        per[c["container"]][r["status"]] += 1
+        families[c.get("kind", "?")] = families.get(c.get("kind", "?"), 0) + 1
+        bad = {v["tags"].get("op") for v in r["violations"]}
+        for v in r["violations"]:
+            if v["tags"].get("op") in ("fit", "fit_transform"):
+                bad |= {"*"}
+        if "*" not in bad and r["status"] in ("held", "violated"):
+            for op in ("fit_transform", "transform", "inverse_transform_data", "components", "scores", "inverse_transform"):
+                if op not in bad:
+                    clean.setdefault(op, {}).setdefault(c["container"], 0)
+                    clean[op][c["container"]] += 1
+    return {"status_by_container": per, "case_families": families, "operations_observed_without_violation": clean}
 
 
 # -----------------------------------------------------------------------------------------------------------
@@ -267,6 +298,9 @@ def _guard(obs, op, fn, refusable=False, before_fail=None):
     try:
         return True, fn()
     except Exception as e:  # noqa: BLE001
+        # the runner's watchdog / harness-flagged errors are not the library's: let them through
+        if type(e).__name__ == "_CaseTimeout" or isinstance(e, MemoryError) or getattr(e, "_xv_harness", False):
+            raise
         site = exception_site(e, REPO)
         if site is None:
             raise
@@ -315,6 +349,10 @@ def _align(obs, op, what, da, dims_expected, labels_ref, extra_dims=()):
         if not good:
             ok = False
             continue
+        if how != "multiindex" and labels_ref[d] and isinstance(labels_ref[d][0], tuple):
+            obs.count("recorded:multiindex_came_back_flat:" + op)
+        if keys != refk:
+            obs.count("recorded:element_order_changed:" + op)
         idx.append(L.positions(labels_ref[d], keys))
     if not ok:
         return None
@@ -374,7 +412,7 @@ def _values(obs, op, what, got, want, tol, scale, ids, NS=None):
             if len(bad):
                 i = tuple(bad[0])
                 msg = f"{what}: {len(bad)} cells carry another cell's value, e.g. position {i}: got id {g[i]:.0f}, own id {w[i]:.0f}"
-        obs.close(f"{op}:values", g, w, tol, scale=scale, tags=dict(tg, symptom="value_on_wrong_label"), msg=msg)
+        obs.close(f"{op}:values", g, w, tol, scale=scale, tags=dict(tg, symptom="value_on_wrong_label" if ids else "value_differs"), msg=msg)
     return ok1 and ok2
 
 
@@ -423,6 +461,25 @@ def _conservation(obs, rec, b, op):
     obs.check(f"{op}:cols_distinct", len(set(fid[0, :].tolist())) == A.shape[1], "two columns carry the same feature label", tags=dict(tg, symptom="column_duplicated"))
 
 
+def _same_matrix(obs, M, M2, b, sn, fn, scale):
+    tg = {"op": "transform"}
+    ok = obs.check(
+        "transform:matrix_dims",
+        hasattr(M2, "dims") and set(M2.dims) == {sn, fn} and set(M.dims) == {sn, fn} and dict(M2.sizes) == dict(M.sizes),
+        f"transform() gives {dict(getattr(M2, 'sizes', {}))}, fit_transform() gave {dict(getattr(M, 'sizes', {}))}",
+        tags=dict(tg, symptom="matrix_shape"),
+    )
+    if not ok:
+        return
+    A = np.asarray(M.transpose(sn, fn).values, dtype=float)
+    B = np.asarray(M2.transpose(sn, fn).values, dtype=float)
+    msg = ""
+    if b["ids"] and not np.array_equal(A, B):
+        i = tuple(np.argwhere(A != B)[0])
+        msg = f"transform() puts cell id {B[i]:.0f} where fit_transform() put id {A[i]:.0f} (row {i[0]}, column {i[1]})"
+    obs.close("transform:same_matrix", B, A, TOL_RT, scale=scale, tags=dict(tg, symptom="transform_matrix_differs"), msg=msg)
+
+
 def _compare_data(obs, op, out, b, tol, scale):
     """full-structure comparison of a data-like output with the input"""
     outs = _container(obs, op, out, b)
@@ -440,6 +497,8 @@ def _compare_data(obs, op, out, b, tol, scale):
             _values(obs, op, what, got, v["values"], tol, scale, b["ids"])
             if tuple(da.dims) != tuple(v["dims"]):
                 obs.count("recorded:dim_order_changed:" + op)
+            if it["type"] == "DataArray" and da.name != v["name"]:
+                obs.count("recorded:dataarray_name_changed:" + op)
 
 
 # -----------------------------------------------------------------------------------------------------------
@@ -503,6 +562,11 @@ def run_case(case, obs):
             ok, back = _guard(obs, "inverse_transform_data", lambda: pre.inverse_transform_data(M), refusable)
             if ok:
                 _compare_data(obs, "inverse_transform_data", back, b, TOL_RT, scale)
+            # second execution on the same input: transform() must build the very same matrix (same cell in the
+            # same row / column) as fit_transform(), else later projections hang on other labels than the fit
+            ok, M2 = _guard(obs, "transform", lambda: pre.transform(X), refusable)
+            if ok:
+                _same_matrix(obs, M, M2, b, sn, fn, scale)
 
         # ---------------- part 2: EOF on the same layout ------------------------------------------------
         obs.tag(cls="EOF")
